@@ -24,6 +24,7 @@ import (
 	"testing/synctest"
 	"time"
 
+	"github.com/Cloud-Foundations/keymaster/eventmon/eventrecorder"
 	"github.com/Cloud-Foundations/keymaster/keymasterd/eventnotifier"
 	"github.com/Cloud-Foundations/keymaster/lib/instrumentedwriter"
 	"github.com/Cloud-Foundations/keymaster/lib/vip"
@@ -157,6 +158,16 @@ type vfWorld struct {
 	stopOnViolation bool
 	loginAttempts   []time.Time
 
+	subs          map[int]*vfSubscriber
+	detectBlocked bool
+	rec           *eventrecorder.EventRecorder
+	recFile       string
+	recGen        int
+	recLive       []vfRecModelEvent
+	recSaved      []vfRecModelEvent
+	recDirty      bool
+	recSavedOnce  bool
+	recLastEvent  time.Time
 	expiredCookie string
 	groupChanged  map[string]time.Time
 	groupSrvDownSince time.Time
@@ -696,6 +707,7 @@ type vfCall struct {
 	ctx  *vfReqCtx
 	rec  *httptest.ResponseRecorder
 	resp *vfResp
+	blocked bool // the handler did not return within the simulated watchdog time
 }
 
 func (w *vfWorld) prepare(r *vfReq) *vfCall {
